@@ -418,6 +418,12 @@ func c20Judge(t, id string, noise func()) (v kit.Verdict) {
 			break
 		}
 	}
+	if c20HasMeta(t) {
+		add("tpl:metachar")
+	}
+	if c20HasMeta(id) {
+		add("id:metachar")
+	}
 	shift := c20KnownShift(t)
 	if shift {
 		add("tpl:upper-index-shift")
@@ -425,7 +431,7 @@ func c20Judge(t, id string, noise func()) (v kit.Verdict) {
 	c20IdentClasses(id, add)
 
 	fail := func(format string, args ...any) kit.Verdict {
-		v.Fail = fmt.Sprintf("FileNamingFormat(%q, %s): ", t, c20Short(id)) + fmt.Sprintf(format, args...)
+		v.Fail = fmt.Sprintf("FileNamingFormat(%s, %s): ", c20Short(t), c20Short(id)) + fmt.Sprintf(format, args...)
 		if shift {
 			v.Known = "upper-index-shift"
 		}
@@ -453,8 +459,8 @@ func c20Judge(t, id string, noise func()) (v kit.Verdict) {
 	if r1.isErr {
 		if !rejectOK {
 			p := parses[0]
-			return fail("valid template (prefix %q, go in %s case, through %q, designer in %s case, suffix %q) rejected: %s",
-				p.pre, c20StyleName[p.gs], p.thr, c20StyleName[p.ds], p.suf, r1.err)
+			return fail("valid template (prefix %s, go in %s case, through %s, designer in %s case, suffix %s) rejected: %s",
+				c20Short(p.pre), c20StyleName[p.gs], c20Short(p.thr), c20StyleName[p.ds], c20Short(p.suf), r1.err)
 		}
 		return v
 	}
@@ -508,6 +514,16 @@ var c20Special = []string{
 	"用户", "前缀", "后缀", "\xff", "\xc3", "\xe4\xb8", "�", " ",
 }
 
+// c20Meta: format verbs, regexp / glob / shell / text-template metacharacters,
+// NUL and control characters: legal in a template (and in an identifier) and
+// special to helpers a renderer might be tempted to use.
+var c20Meta = []string{"%s", "%d", "%!", "%", "%%", "%v%", "$", "$1", "${x}", "$(x)", "*", "?", "[a-z]", "[", "\\", "\\E", "`",
+	"{{.}}", "{{", "\x00", "|", "^", "(", ")", "(?i)", "+", "~", "'", "\"", ";", "&", "<", ">", "\n", "\t", "\r", "\x7f", "..", "/", "a/b", "%s_%d"}
+
+func c20HasMeta(s string) bool {
+	return strings.ContainsAny(s, "%$*?[]\\`{}()|^+~'\";&<>\x00\n\t\r\x7f/")
+}
+
 func c20Fragment() *rapid.Generator[string] {
 	return rapid.Custom(func(rt *rapid.T) string {
 		switch k := rapid.IntRange(0, 99).Draw(rt, "fk"); {
@@ -523,7 +539,9 @@ func c20Fragment() *rapid.Generator[string] {
 				"DESIGNE", "g_o", "desinger", "g0", "d_e_s_i_g_n_e_r"}).Draw(rt, "near")
 		case k < 84:
 			return rapid.SampledFrom([]string{"go", "GO", "Go", "gO", "designer", "Designer", "DESIGNER", "deSigner", "go_designer", "designergo"}).Draw(rt, "ambig")
-		case k < 92:
+		case k < 88:
+			return rapid.SampledFrom(c20Meta).Draw(rt, "meta")
+		case k < 94:
 			return rapid.SampledFrom(c20Special).Draw(rt, "special") + rapid.SampledFrom([]string{"", "", "_", "x"}).Draw(rt, "tail")
 		default:
 			return rapid.StringN(0, 4, 12).Draw(rt, "any")
@@ -621,7 +639,7 @@ func c20IdentGen() *rapid.Generator[string] {
 		case k < 88:
 			return rapid.String().Draw(rt, "anyid")
 		case k < 95:
-			return join(rt, rapid.SliceOfN(rapid.OneOf(word, rapid.SampledFrom([]string{"user-info", "a.b", "a b", "x-", "-x", "a b", "a—b", "#"})), 1, 3).Draw(rt, "pwords"))
+			return join(rt, rapid.SliceOfN(rapid.OneOf(word, rapid.SampledFrom(c20Meta), rapid.SampledFrom([]string{"user-info", "a.b", "a b", "x-", "-x", "a b", "a—b", "#"})), 1, 3).Draw(rt, "pwords"))
 		default:
 			return string(rapid.SliceOfN(rapid.Byte(), 0, 12).Draw(rt, "idbytes"))
 		}
@@ -648,7 +666,15 @@ func TestVerif_C20_naming_render(t *testing.T) {
 				t2, i2 := c20U(c.T2), c20U(c.I2)
 				noise = func() { c20Call(t2, i2) }
 			}
-			return c20Judge(c20U(c.T), c20U(c.I), noise)
+			v := c20Judge(c20U(c.T), c20U(c.I), noise)
+			if c.N && v.Fail == "" {
+				// the unrelated call is a call like any other: judge it as well
+				// (its classes are not counted, the case is classified by T/I)
+				if v2 := c20Judge(c20U(c.T2), c20U(c.I2), nil); v2.Fail != "" {
+					v.Fail, v.Known = "unrelated call after FileNamingFormat("+c20Short(c20U(c.T))+", "+c20Short(c20U(c.I))+"): "+v2.Fail, v2.Known
+				}
+			}
+			return v
 		})
 }
 
